@@ -963,6 +963,25 @@ silent("c20-s-sample-cdf-in-copy", "C20", TENSOR,
        "            logit_max = np.amax(flat_logits, -1, keepdims=True)\n            probs = np.exp(flat_logits - logit_max)\n            probs = probs / np.sum(probs, -1, keepdims=True)\n            s = np.cumsum(probs, -1)",
        "            s = np.array(flat_logits, copy=True)\n            s -= np.amax(s, -1, keepdims=True)\n            np.exp(s, out=s)\n            s /= np.sum(s, -1, keepdims=True)\n            np.cumsum(s, -1, out=s)")
 
+
+# ---- R04.8 / R04.9
+SUMPROD = "funsor/sum_product.py"
+fire("c04-slice-into-slice-ignores-inner-stop", "C04", TERMS,
+     "            stop = min(\n                self.slice.stop, self.slice.start + self.slice.step * index.slice.stop\n            )\n", "            stop = self.slice.stop\n",
+     "R04.8", "Slice.eager_subs")
+silent("c04-s-slice-into-slice-stop-via-locals", "C04", TERMS,
+       "            stop = min(\n                self.slice.stop, self.slice.start + self.slice.step * index.slice.stop\n            )\n",
+       "            inner_stop = index.slice.stop\n            stop = min(self.slice.stop, self.slice.start + self.slice.step * inner_stop)\n")
+fire("c04-tensor-rename-without-clash-test", "C04", TENSOR,
+     "                if subs[k].name in self.inputs and subs[k].name not in renamed\n", "                if False\n", "R04.9", "Tensor.eager_subs")
+silent("c04-s-tensor-rename-clash-test-negated", "C04", TENSOR,
+       "                if subs[k].name in self.inputs and subs[k].name not in renamed\n",
+       "                if not (subs[k].name not in self.inputs or subs[k].name in renamed)\n")
+fire("c04-markov-product-rename-without-clash-test", "C04", SUMPROD,
+     "            if isinstance(v, Variable) and v.name not in self.inputs\n", "            if isinstance(v, Variable)\n", "R04.9", "MarkovProduct.eager_subs")
+fire("c04-gaussian-var-stage-collapse-not-raised", "C04", GAUSS,
+     "        if len(inputs) != len(self.inputs):\n            raise ValueError(\"Variable substitution name conflict\")\n", "        pass\n", None, "_eager_subs_var")
+
 # ===== derived variants: must stay at the END of this file (they enumerate every rename() variant above) =====
 # `if c: A else: B` -> `if not c: B else: A` in the anchor functions (behaviour-preserving)
 def invert(prop, file, qual):
